@@ -443,6 +443,12 @@ def runOp (toks : List String) : M String := do
     boxed
     let nb ← swapIn old
     pure s!"{nb.start} {nb.size}"
+  | ["add_mod", x, y, m] => match parseNat x, parseNat y, parseNat m with
+    | some x, some y, some m => do let r ← liftE (addMod x y m); pure (toString r)
+    | _, _, _ => bad
+  | ["sub_mod", x, y, m] => match parseNat x, parseNat y, parseNat m with
+    | some x, some y, some m => do let r ← liftE (subMod x y m); pure (toString r)
+    | _, _, _ => bad
   | ["junk", _] => do junkFill; pure "-"
   | ["fill_all"] => do
     let b ← getBuf
